@@ -320,14 +320,31 @@ func (f *fidRef) markChildDeleted(name string) {
 //
 // Precondition: this must be called via safelyGlobal.
 func notifyNameChange(pn *pathNode) {
+	// Each reference is pinned while its file is called: one whose count
+	// has already dropped to zero has closed its file (or is about to) and
+	// is skipped. The pins are dropped only after the whole walk, when no
+	// childMu is held any more: dropping a last reference unregisters it
+	// from its parent's node.
+	var pinned []*fidRef
+	notifyNameChangePinned(pn, &pinned)
+	for _, ref := range pinned {
+		ref.DecRef()
+	}
+}
+
+func notifyNameChangePinned(pn *pathNode, pinned *[]*fidRef) {
 	// Call on all local references.
 	pn.forEachChildRef(func(ref *fidRef, name string) {
+		if !ref.TryIncRef() {
+			return
+		}
+		*pinned = append(*pinned, ref)
 		ref.file.Renamed(ref.parent.file, name)
 	})
 
 	// Call on all subtrees.
 	pn.forEachChildNode(func(pn *pathNode) {
-		notifyNameChange(pn)
+		notifyNameChangePinned(pn, pinned)
 	})
 }
 
